@@ -8,6 +8,14 @@ CHECKS = {
    text="Generated programs of routines and main-thread code sending messages and nested bundles with arbitrary latencies, run by real sc3 in the RT world under faults (datagrams captured at the socket seam, decoded by an independent strict OSC codec, optionally looped back to OscFunc responders) and in the NRT world (score list, raw form, tail marker against a model). Exploration, not proof.",
    note="Trusts the shims and the independent codec; main-thread sends are checked against the virtual-time interval of the call; nested-bundle refusal with an 'immediate' parent and sub is treated as unspecified.",
    tech="deterministic simulation with fault injection (captured wire traffic vs timetag model; NRT score vs model)"),
+ 'C09': dict(
+   text="Model-based history checking of the real TaskQueue against a sorted-list reference (add, re-add, remove, pop, peek smallest/largest, empty, clear, iteration; ties, +-inf, identity/equality-keyed tasks), plus shadow monitors that mirror every live queue (clock queues, NRT ClockScheduler, OscScore) inside simulated RT runs with concurrent schedulers and inside NRT runs. Exploration, not proof.",
+   note="Direct histories involve no scheduler (stated in the evidence); which of several entries sharing the largest time peek(False) returns is treated as unspecified.",
+   tech="deterministic simulation harness: tape-generated operation histories and shadow monitors in simulated runs vs reference model"),
+ 'C16': dict(
+   text="Model-based history checking of the real bus/buffer/node-id allocators of a Server configured per case (sizes, reserved offsets, max_logins, client id -> real partition arithmetic) against an interval-set reference: safety (inside partition, no overlap), completeness ('no space' only when no free run exists), misuse tolerance (double free, free(None), unknown address), cross-client disjointness by exhaustion, node-id window/wrap-around; the allocator's random tie-break is a tape draw. Exploration, not proof.",
+   note="No scheduler involved (stated in the evidence); node-id wrap-around reached by setting the counter near the top of the window.",
+   tech="deterministic simulation harness: tape-generated alloc/free/fault histories with controlled randomness vs interval-set model"),
  'C08': dict(
    text="Seeded search over thread interleavings, wake-up latencies, execution cost, stalls and raising tasks of real sc3 clocks (SystemClock, AppClock, 0-3 TempoClocks, OSC receive thread, user threads) under a deterministic baton kernel with virtual time; oracles: exactly-once, never-early, quiescence invariant (no lost wake-up / oversleep), exact lateness in fault-free runs, order with FIFO ties, reschedule base, clear/stop, error recovery. Exploration, not proof.",
    note="Trusts the threading/time/socket shims to implement CPython semantics; pre-emption at synchronisation points only; TempoClock beat<->second conversion is taken from the clock (checked by C12).",
